@@ -155,6 +155,30 @@ def rule_converter(ctx: Ctx) -> None:
             tbl = any(s.strip().endswith(".name") for s in sides)
             ctx.check(low and tbl, "C14-case", fname, "compare", f"lookup compares {k[5:]} – expected `<query>.lower() == <table entry>.name`",
                       fi=fi, expected="name.lower() == label_info.name", found=k[5:])
+        # decision structure: a table entry whose name matches yields ITS label; a non-matching entry changes nothing; UNKNOWN iff nothing matched
+        from rules.common import enum_paths as _ep
+        for p in _ep(ctx, fi):
+            lps = [e for e in p.effects if e.kind == "loop"]
+            if len(lps) != 1:
+                continue
+            ent = U(lps[0].node.target)
+            want_hit = f"Label({ent}.label,name,attributes)" if fname == "convert_label" else f"{ent}.label"
+            for bp in lps[0].body:
+                hit = next((v for k, v in bp.conds if strip_v(k).replace(" ", "") in (f"same:{ent}.name==name.lower()", f"same:name.lower()=={ent}.name")), None)
+                if hit is None:
+                    continue
+                got = bp.env.get("return_label")
+                gt_ = strip_v(U(got)).replace(" ", "") if got is not None else None
+                if hit:
+                    ctx.check(gt_ == want_hit, "C14-case", fname, "hit", f"{fname}: for a table entry whose name equals the lower-cased query the result becomes `{gt_}`; expected `{want_hit}`", fi=fi, expected=want_hit, found=str(gt_))
+                else:
+                    ctx.check(gt_ is None, "C14-case", fname, "miss", f"{fname}: a table entry whose name does NOT match sets the result to `{gt_}`", fi=fi, expected="unchanged", found=str(gt_))
+            none_after = next((v for k, v in p.conds if strip_v(k).replace(" ", "") == "none:return_label"), None)
+            ctx.require(none_after is not None, f"{fname}: the `nothing matched` test (return_label is None) was not recognised")
+            rv = strip_v(U(p.retval)).replace(" ", "") if p.retval is not None else None
+            want_rv = ("Label(self.label_type.UNKNOWN,name,attributes)" if fname == "convert_label" else "self.label_type.UNKNOWN") if none_after else "return_label"
+            ctx.check(rv == want_rv, "C14-fallback", fname, f"after-loop:none={int(bool(none_after))}", f"{fname}: when {'nothing' if none_after else 'an entry'} matched the function returns `{rv}`; expected `{want_rv}`", fi=fi,
+                      expected=want_rv, found=str(rv))
         # every non-raising exit returns either a table label or the UNKNOWN fallback
         fb = False
         for p in paths:
